@@ -80,6 +80,12 @@ def run(name, checks, tier='quick'):
     rc, o = sh('git -C /repo apply %s' % os.path.join(out, 'patch.diff'))
     assert rc == 0, o
     res = {}
+    # evidence files describe the unchanged tree: keep them out of the way of runs against a seeded change
+    evid = os.path.join(ROOT, 'evidence')
+    keep = os.path.join(ROOT, 'work', 'evidence_keep')
+    shutil.rmtree(keep, ignore_errors=True)
+    os.makedirs(os.path.join(ROOT, 'work'), exist_ok=True)
+    shutil.copytree(evid, keep)
     try:
         for c in checks:
             t0 = time.time()
@@ -94,6 +100,8 @@ def run(name, checks, tier='quick'):
             res[c] = {'exit': rc, 'violations': len(viol), 'first': first, 'wall_s': round(time.time() - t0)}
             print(c, json.dumps(res[c]))
     finally:
+        shutil.rmtree(evid, ignore_errors=True)
+        shutil.copytree(keep, evid)
         sh('git -C /repo checkout -- .')
         rc, o = sh('git -C /repo status --porcelain --untracked-files=no')
         assert not o.strip()
